@@ -33,7 +33,7 @@ def demo_cmd(demo, wt):
     comp = re.sub(r"\s-o\s+\S+", " -o demo", comp) if " -o " in comp else comp + " -o demo"
     if "-I/usr/include/eigen3" not in comp:
         comp += " -I/usr/include/eigen3"
-    mp = re.search(r"mpirun[^\n]*?-n\s+(\d+)", txt)
+    mp = re.search(r"mpirun[^\n]*?-np?\s+(\d+)", txt)
     run = "./demo"
     if mp and comp.startswith("mpicxx"):
         run = "mpirun --allow-run-as-root --oversubscribe -n %s ./demo" % mp.group(1)
